@@ -139,6 +139,9 @@ FAILING = [
     # the default output of the conversion is the reference plotfile of the same step / the reference is named as output
     ("chk2plt-default-is-reference", None, lambda r: tools.chk2plt("chk00007", None, ref="plt00007")),
     ("chk2plt-output-is-reference", None, lambda r: tools.chk2plt("chk00007", "plt00007/", ref="plt00007")),
+    ("marinate-device-full", lambda r: os.symlink("/dev/full", os.path.join(r, "plt00010.pkl")), lambda r: tools.marinate("plt00010")),
+    ("whip-device-full", lambda r: os.symlink("/dev/full", os.path.join(r, "out_grid.npy")), lambda r: tools.whip("plt00010", "temp", "out_grid")),
+    ("pestle-truncated", lambda r: _truncate(r, "plt00010", "Cell_D", 24), lambda r: tools.pestle("plt00010", "volFrac")),        # the last field: its data end the file
     ("pestle-unknown-field", None, lambda r: tools.pestle("plt00010", "no_such_field")),
     ("whip-unknown-field", None, lambda r: tools.whip("plt00010", "no_such_field", "out_g")),
     ("chef-unknown-recipe", None, lambda r: tools.chef("plt00010", "NOPE", "out_ck")),
@@ -219,7 +222,7 @@ def allowed_roots(root, tool, out_kind, inp_name):
         return []
     if out_kind != "default":
         return [os.path.join(root, n) for n in ("out_col", "out_col2", "out_cmb", "out_cmb4", "out_cmb5", "out_ck", "out_cks", "out_arr", "out_slc", "out_arr2",
-                                                "out_grid", "out_plt")]
+                                                "out_grid", "out_plt", "plt00010.pkl")]
     # documented defaults: beside the input (same parent directory) or in the working directory, never inside the input
     base = tool.split("-")[0]
     if base == "chef":
@@ -307,6 +310,25 @@ def run(ctx, rep, model=True):
                 shutil.rmtree(root, ignore_errors=True)
                 if len(rep.violations) >= 15:
                     return
+    for tool, fn, inp_name, out_kinds in invocations():
+        if "explicit-rel" not in out_kinds and "default" not in out_kinds:
+            continue
+        out_kind = "explicit-rel" if "explicit-rel" in out_kinds else "default"
+        case = {"tool": tool, "form": "rel", "out": out_kind, "scenario": "second-directory"}
+        rep.case(case, nontrivial=True); rep.count("scenario:second-directory")
+        rootA = fresh(ctx, template); rootB = fresh(ctx, template)
+        execute(rootA, lambda: fn(rootA, "rel", out_kind))
+        hashA = audit.tree_hash(rootA)
+        outcome, ev = execute(rootB, lambda: fn(rootB, "rel", out_kind))
+        if outcome != "ok":
+            rep.fail(f"{tool}: the invocation that succeeds from one working directory fails ({outcome}) from a second one "
+                     "with the same relative names", case)
+        judge_writes(rep, case, rootB, before, ev, allowed_roots(rootB, tool, out_kind, inp_name))
+        if audit.tree_hash(rootA) != hashA:
+            rep.fail(f"{tool}: run from a second working directory, it changed files of the first one", case)
+        shutil.rmtree(rootA, ignore_errors=True); shutil.rmtree(rootB, ignore_errors=True)
+        if len(rep.violations) >= 15:
+            return
     for name, prep, fn in FAILING:
         case = {"tool": name, "scenario": "failing-input"}
         rep.case(case, nontrivial=True); rep.count("scenario:failing-input")
@@ -333,6 +355,19 @@ def replay(ctx, rep, obj, model=True):
         outcome, ev = execute(root, lambda: fn(root))
         if outcome == "ok":
             rep.fail(f"{c['tool']}: the tool returned normally", c)
+        return
+    if c["scenario"] == "second-directory":
+        for tool, fn, inp_name, out_kinds in invocations():
+            if tool == c["tool"]:
+                rootA = fresh(ctx, template)
+                execute(rootA, lambda: fn(rootA, "rel", c["out"]))
+                hashA = audit.tree_hash(rootA)
+                outcome, ev = execute(root, lambda: fn(root, "rel", c["out"]))
+                if outcome != "ok":
+                    rep.fail(f"{tool}: fails ({outcome}) from a second working directory with the same relative names", c)
+                judge_writes(rep, c, root, before, ev, allowed_roots(root, tool, c["out"], inp_name))
+                if audit.tree_hash(rootA) != hashA:
+                    rep.fail(f"{tool}: run from a second working directory, it changed files of the first one", c)
         return
     for tool, fn, inp_name, out_kinds in invocations():
         if tool == c["tool"]:
